@@ -1,4 +1,5 @@
 """C17 - HTML state pseudo-classes follow their definitions and partition laws."""
+import zlib
 import warnings
 import bs4
 import lib, e1, campaign, matchcheck, gen_selectors
@@ -140,6 +141,10 @@ def run(tier, seed):
                     a_[nm_] = val()
                 if t_ == 'week':
                     a_ = {k_: (v_ if k_ == 'type' or (v_[:4].isdigit() and 1000 <= int(v_[:4]) <= 9999 and v_[4:6] == '-W') else '2021-W05') for k_, v_ in a_.items()}
+                # the type keyword in another ASCII case (HTML: matched case-insensitively); chosen by a hash, the PRNG stream is untouched
+                h_ = zlib.crc32(repr(sorted(a_.items())).encode())
+                if h_ % 3 == 0:
+                    a_['type'] = [t_.upper(), t_.title(), t_[:1] + t_[1:].upper()][(h_ >> 4) % 3]
                 inputs.append(('e', 'input', a_, []))
             ab_ = ('e', 'html', {}, [('e', 'head', {}, []), ('e', 'body', {}, [('e', 'form', {}, inputs)])])
             out.append(_e1.Scenario(_gt.build_api([ab_]) if rnd.random() < 0.5 else _gt.parse_with(_gt.to_markup(ab_), 'html.parser'), 'forms/range-directed'))
